@@ -12,7 +12,7 @@ CLAIM = {
           'writer output is the LIS-79 encoding and the reported positions are the sums of the record sizes '
           '(writer_layout), every history of read/skip/next/seek/tell on an encoded file is answered exactly as the '
           'abstract record-cursor semantics says (read_refines, seek_any_order), stripping the TIF markers gives the '
-          'unmarked file (strip_tif_write). The model is tied to the code on every run by correspondence streams '
+          'unmarked file (strip_tif_encode, strip_tif_write). The model is tied to the code on every run by correspondence streams '
           '(writer bytes and tells, reader histories incl. malformed files, strip_tif) and the property is evaluated '
           'on the implementation alone against an independent Python layout and list slicing.'),
  'note': ('Trusted: Lean kernel; model<->code correspondence on the cases of the run. Reader modelled for the FileRead '
@@ -31,7 +31,7 @@ RULE = ('files: all 8 trailer combinations x TIF off/normal/reversed in rotation
 ASSUMPTIONS = ['io.BytesIO read/seek/tell semantics (read returns at most n bytes and advances by what it returned)',
                'reader constructed with the FileRead defaults keepGoing=False, pad_modulo=0, pad_non_null=False',
                'logical records are non-empty (the writer emits nothing for an empty record)',
-               'a TIF-marked file holds at least one record and is shorter than 2**32 bytes',
+               'a TIF-marked file holds at least one record; files are shorter than 2**32 - 24 bytes (32-bit TIF words)',
                'byte-reversed TIF markers: first marker next not in {0x100, 0x10000}']
 TRUSTED = ['modelled, not verified: io.BytesIO, struct.pack/unpack of >H, <3L, >3L (transcribed as arithmetic on byte lists)',
            'modelled, not verified: state of the reader after an exception other than the "already at EOF" guard '
@@ -84,6 +84,8 @@ def impl_write(mods, lay, recs):
         return 'err write', None
     except mods[1].ExceptionPhysRec:
         return 'err write', None
+    except Exception as e:          # anything else (struct.error, AssertionError, ...) is a failed write
+        return 'err ' + type(e).__name__, None
     return f'ok {hx(out)} {",".join(map(str, tells))}', (out, tells)
 
 
@@ -114,6 +116,8 @@ def impl_history(mods, data, ops):
                 out.append('F'); halted = True
         except TifMarker.ExceptionTifMarker:
             out.append('F'); halted = True
+        except Exception as e:      # an exception class the model does not know
+            out.append('X:' + type(e).__name__); halted = True
     return out
 
 
@@ -333,7 +337,7 @@ def run(ctx):
     mods = _impl()
     lis = _lis()
     rng = ctx.rng
-    nfiles = ctx.n(1200, 12000)
+    nfiles = ctx.n(3000, 30000)
     nbig = ctx.n(6, 40)
     cases = []
     # fixed small cases first: every trailer combination x TIF mode at the minimum PR length
@@ -366,6 +370,11 @@ def run(ctx):
     assert first_next(f22_lay, f22_recs) == 0x10000
     cases.append((f22_lay, f22_recs, [('r', 5), ('t',), ('r', -1), ('r', -1), ('k', 1), ('r', -1)]))
 
+    # more than 65536 physical records: the trailer record number wraps (oracle only, too long for the list model)
+    wrap_lay = (rng.choice([0, 1]), 7, 1, None, 0)
+    wrap_recs = [bytes(rng.getrandbits(8) for _ in range(65530)), b'xyz', bytes(9)]
+    check_case(ctx, mods, wrap_lay, wrap_recs, [('k', 1), ('r', -1), ('r', 4), ('t',), ('k', 0), ('s', 70000), ('r', 1), ('r', 2)],
+               want_nontriv=False)
     lines_w, lines_e, lines_h, lines_a, lines_s = [], [], [], [], []
     results = []
     for lay, recs, ops in cases:
@@ -408,7 +417,7 @@ def run(ctx):
                 'ops': show_ops(cases[77][2])[:300]})
     # ---------------- malformed files: model vs implementation only
     mal = []
-    for j in range(ctx.n(1500, 15000)):
+    for j in range(ctx.n(3000, 30000)):
         lay, recs, _ = cases[rng.randrange(24, len(cases) - nbig - 1)]
         if not recs:
             continue
